@@ -754,9 +754,9 @@ func (m *Machine) exec(fr *frame, instr ssa.Instruction) {
 		l := m.get(fr, in.Len)
 		li, _ := l.(Int)
 		et := in.Type().Underlying().(*types.Slice).Elem()
-		if li.IsConst() && li.Lo >= 0 && li.Lo <= 1<<16 {
+		if li.IsConst() && li.Lo >= 0 && li.Lo <= 1<<18 {
 			cp := li.Lo
-			if c, ok := m.get(fr, in.Cap).(Int); ok && c.IsConst() && c.Lo >= cp && c.Lo <= 1<<16 {
+			if c, ok := m.get(fr, in.Cap).(Int); ok && c.IsConst() && c.Lo >= cp && c.Lo <= 1<<18 {
 				cp = c.Lo
 			}
 			elems := make([]Val, cp)
